@@ -1,11 +1,23 @@
 // Harness for C19: runs the real cors middleware on generated configurations × requests and
 // writes one case line per request (inputs + the implementation's observation).
+//
+// Case fields after the id:
+//
+//	 1 allowOrigins(hexlist)  2 nextSet(0/1)  3 funcSet(0/1)  4 funcAllows(hexlist)  5 funcPanics(hexlist)
+//	 6 allowMethods  7 allowHeaders  8 expose (hexlists)  9 maxAge(int)  10 credentials  11 privateNetwork
+//	12 method  13 origin  14 acrMethod  15 acrHeaders  16 acrPrivate (hex)  17 skip(0/1)
+//	18 priorVary(hex)  19 afterVary(hexlist)
+//	20 urlFacts: what the real net/url.Parse answers on every string the constructor can hand to it
+//	   (and on the request's Origin), `hex(arg)=err` or `hex(arg)=scheme|host|path|rawquery|fragment`
+//	   joined by `;`  — an observation, recomputed on replay
+//	21 the middleware's observation
 package main
 
 import (
+	"encoding/hex"
 	"fmt"
 	"io"
-	"sort"
+	"net/url"
 	"strings"
 
 	"github.com/gofiber/fiber/v3"
@@ -17,20 +29,48 @@ import (
 )
 
 type cfgIn struct {
-	origins, funcAllows, methods, headers, expose []string
-	funcSet, creds, pn                            bool
-	maxAge                                        int
+	origins, funcAllows, funcPanics, methods, headers, expose []string
+	nextSet, funcSet, creds, pn                               bool
+	maxAge                                                    int
 }
 
 type reqIn struct {
 	method, origin, acrm, acrh, acrpn string
 	skip                              bool
+	priorVary                         string
+	afterVary                         []string
 }
 
-var schemes = []string{"http", "https"}
-var hosts = []string{"example.com", "a.example.com", "b.a.example.com", "evil-example.com", "examplexcom",
-	"example.com.evil.io", "xexample.com", "localhost", "a.io", "[::1]", "127.0.0.1"}
-var ports = []string{"", "", "", ":8080", ":443"}
+// ---- vocabulary -------------------------------------------------------------------------------
+
+var schemesOK = []string{"http", "https", "http", "https", "http", "https", "HTTP", "Https", "chrome-extension", "a+b.c-1", "x"}
+var schemesAny = []string{"http", "https", "", "1http", "ht tp", "-x", "h_t", "HTTPS", "a:b", "http:", "x"}
+
+var hostsPlain = []string{"example.com", "a.example.com", "b.a.example.com", "evil-example.com", "examplexcom",
+	"example.com.evil.io", "xexample.com", "localhost", "a.io", "127.0.0.1", "example.com.", "xn--bcher-kva.example",
+	"sub.xn--p1ai", "ex_ample.com", "a"}
+var hostsV6 = []string{"[::1]", "[2001:db8::1]", "[::FFFF:1.2.3.4]", "[fe80::1%25en0]"}
+var hostsOdd = []string{"", "a%25b.com", "ex%41mple.com", "exa mple.com", "ex*mple.com", "[::1", "::1", "::1]", "[::1]x",
+	"[fe80::1%25e%20n]", "[fe80::1%25e%2Fn]", "a..b", ".", "ex%zzmple.com", "ex%2", "a<b>c", "a\"b", "a\\b", "a^b", "a\tb", "exa\x7fmple.com",
+	"a,b", "a;b=c", "(a)", "a'b", "a!b", "a$b", "a&b", "a+b", "a~b", "a|b", "a{b}", "a`b"}
+var portsOK = []string{"", "", "", "", ":8080", ":443", ":80", ":3000"}
+var portsAny = []string{"", ":", ":0", ":65536", ":80a", ":-1", ":99999999999999999999", ":8080", ": 80"}
+var usersOK = []string{"user@", "user:pw@", "u%40x@", "a@b@", ":@", "@", "user:p:w@"}
+var usersAny = []string{"us er@", "u%zz@", "u/x@", "u?x@", "u#x@", "u[x@", "user:p%w@", "\xc3\xa9@", "u%@"}
+var tailsOK = []string{"", "", "", "", "", "/", "/", "?", "/?", "#", "/#", "?#", "/?#"}
+var tailsAny = []string{"//", "/path", "?q=1", "#frag", "/%2F", "/%zz", "/.", ";x", "/?q", "/#f", "??", "?#f", "#?", "/ ", "\\", "/*", "#%zz", "#%41", "?%zz"}
+
+func longHost(r *gen.Rand) string {
+	n := gen.Pick(r, []int{64, 255, 256, 1000, 5000})
+	var sb strings.Builder
+	for sb.Len() < n {
+		sb.WriteString(gen.Pick(r, []string{"a", "bc", "x1", "label"}))
+		if r.Chance(1, 4) {
+			sb.WriteByte('.')
+		}
+	}
+	return sb.String() + ".example.com"
+}
 
 func mixCase(r *gen.Rand, s string) string {
 	if !r.Chance(1, 4) {
@@ -45,105 +85,303 @@ func mixCase(r *gen.Rand, s string) string {
 	return string(b)
 }
 
-func genOrigin(r *gen.Rand) string {
-	return gen.Pick(r, schemes) + "://" + gen.Pick(r, hosts) + gen.Pick(r, ports)
-}
-
-func genCfgOrigin(r *gen.Rand) string {
+func genHost(r *gen.Rand) string {
 	switch r.Intn(12) {
-	case 0:
-		return "*"
-	case 1, 2, 3:
-		o := gen.Pick(r, schemes) + "://*." + gen.Pick(r, hosts[:6]) + gen.Pick(r, ports)
-		if r.Chance(1, 8) {
-			o = gen.Pick(r, []string{" ", "  "}) + o + gen.Pick(r, []string{"", " ", "/"})
+	case 0, 1:
+		return gen.Pick(r, hostsV6)
+	case 2:
+		if r.Chance(1, 3) {
+			return longHost(r)
 		}
-		return mixCase(r, o)
-	case 4:
-		return " " + genOrigin(r) + " "
-	case 5:
-		return genOrigin(r) + "/"
+		return gen.Pick(r, hostsPlain)
 	default:
-		return mixCase(r, genOrigin(r))
+		return gen.Pick(r, hostsPlain)
 	}
 }
 
-func genCfg(r *gen.Rand) cfgIn {
+// a serialized origin (what browsers send), over the widened host vocabulary
+func genOrigin(r *gen.Rand) string {
+	return gen.Pick(r, schemesOK[:6]) + "://" + genHost(r) + gen.Pick(r, portsOK)
+}
+
+// genEntry builds one AllowOrigins entry. clean: a shape the constructor accepts (scheme, optional
+// userinfo, host, optional port, and one of the tails that normalisation strips); otherwise any
+// component may come from the odd vocabulary (most of those must be refused).
+func genEntry(r *gen.Rand, w *gen.Writer, wildcard bool) string {
+	clean := r.Chance(4, 5)
+	scheme, user, host, port, tail := gen.Pick(r, schemesOK), "", genHost(r), gen.Pick(r, portsOK), gen.Pick(r, tailsOK)
+	if r.Chance(1, 8) {
+		user = gen.Pick(r, usersOK)
+	}
+	if !clean {
+		// one or two components go odd
+		for k := 1 + r.Intn(2); k > 0; k-- {
+			switch r.Intn(5) {
+			case 0:
+				scheme = gen.Pick(r, schemesAny)
+			case 1:
+				user = gen.Pick(r, usersAny)
+			case 2:
+				host = gen.Pick(r, hostsOdd)
+			case 3:
+				port = gen.Pick(r, portsAny)
+			default:
+				tail = gen.Pick(r, tailsAny)
+			}
+		}
+		w.Count("entry-odd")
+	} else {
+		w.Count("entry-clean")
+	}
+	sep := "://"
+	if !clean && r.Chance(1, 10) {
+		sep = gen.Pick(r, []string{":/", ":", "//", ":///", "://:"})
+	}
+	var o string
+	if wildcard {
+		switch {
+		case r.Chance(1, 12):
+			// the wildcard in front of the userinfo, or a second one: entries the constructor must refuse
+			o = scheme + sep + "*." + gen.Pick(r, []string{"user@", "a@", "*."}) + host + port + tail
+			w.Count("entry-wild-odd")
+		case r.Chance(1, 16):
+			o = scheme + sep + user + "*." + host + port + tail // userinfo then wildcard: not a "://*." entry
+		default:
+			o = scheme + sep + "*." + host + port + tail
+		}
+	} else {
+		o = scheme + sep + user + host + port + tail
+	}
+	if r.Chance(1, 8) {
+		o = gen.Pick(r, []string{" ", "  ", "      ", ""}) + o + gen.Pick(r, []string{"", " ", "  "})
+		w.Count("entry-spaces")
+	}
+	return mixCase(r, o)
+}
+
+func genCfgOrigin(r *gen.Rand, w *gen.Writer) string {
+	switch r.Intn(14) {
+	case 0:
+		return "*"
+	case 1, 2, 3, 4:
+		return genEntry(r, w, true)
+	case 5:
+		return gen.Pick(r, []string{"null", "", " ", "example.com", "//example.com", "http://", "http://*", "https://*.", "http://*./", "*.example.com", " * "})
+	default:
+		return genEntry(r, w, false)
+	}
+}
+
+// stripEntry gives the origin text an entry stands for, roughly (spaces, stripped tails, userinfo).
+func stripEntry(r *gen.Rand, e string) string {
+	o := strings.Trim(e, " ")
+	if i := strings.Index(o, "://"); i >= 0 && r.Chance(1, 2) {
+		// cut whatever follows the authority (a path, query or fragment the entry should not have had)
+		if j := strings.IndexAny(o[i+3:], "/?#"); j >= 0 {
+			o = o[:i+3+j]
+		}
+	}
+	for _, t := range []string{"#", "?", "/"} {
+		o = strings.TrimSuffix(o, t)
+	}
+	if i := strings.Index(o, "://"); i >= 0 && r.Chance(3, 4) {
+		if j := strings.LastIndex(o, "@"); j > i {
+			o = o[:i+3] + o[j+1:]
+		}
+	}
+	return o
+}
+
+func genCfg(r *gen.Rand, w *gen.Writer) cfgIn {
 	var c cfgIn
 	n := r.Intn(4)
 	for i := 0; i < n; i++ {
-		c.origins = append(c.origins, genCfgOrigin(r))
+		c.origins = append(c.origins, genCfgOrigin(r, w))
 	}
+	c.nextSet = r.Chance(3, 4)
 	c.funcSet = r.Chance(1, 4)
 	if c.funcSet {
 		for i := r.Intn(3); i > 0; i-- {
-			c.funcAllows = append(c.funcAllows, strings.ToLower(genOrigin(r)))
+			switch r.Intn(6) {
+			case 0:
+				// an origin that fails normalisation, or is no origin at all
+				c.funcAllows = append(c.funcAllows, gen.Pick(r, []string{"null", "*", "https://a.example.com/x", "foo", "https://", "https://user@example.com", "http://example.com?", "HTTPS://UPPER.example.com"}))
+			case 1:
+				if len(c.origins) > 0 {
+					c.funcAllows = append(c.funcAllows, strings.ToLower(stripEntry(r, gen.Pick(r, c.origins))))
+					break
+				}
+				fallthrough
+			default:
+				c.funcAllows = append(c.funcAllows, strings.ToLower(genOrigin(r)))
+			}
 		}
-		if r.Chance(1, 6) {
-			c.funcAllows = append(c.funcAllows, "*")
+		if r.Chance(1, 4) {
+			for i := 1 + r.Intn(2); i > 0; i-- {
+				switch r.Intn(3) {
+				case 0:
+					c.funcPanics = append(c.funcPanics, gen.Pick(r, []string{"null", "https://boom.example.com", "*"}))
+				case 1:
+					if len(c.origins) > 0 {
+						c.funcPanics = append(c.funcPanics, strings.ToLower(stripEntry(r, gen.Pick(r, c.origins))))
+						break
+					}
+					fallthrough
+				default:
+					c.funcPanics = append(c.funcPanics, strings.ToLower(genOrigin(r)))
+				}
+			}
 		}
 	}
 	if r.Chance(1, 2) {
 		for i := r.Intn(3) + 1; i > 0; i-- {
-			c.methods = append(c.methods, gen.Pick(r, []string{"GET", "POST", "PUT", "DELETE", "X-CUSTOM"}))
+			c.methods = append(c.methods, gen.Pick(r, []string{"GET", "POST", "PUT", "DELETE", "X-CUSTOM", "get"}))
 		}
 	}
 	if r.Chance(1, 2) {
 		for i := r.Intn(3) + 1; i > 0; i-- {
-			c.headers = append(c.headers, gen.Pick(r, []string{"Content-Type", "X-Token", "Authorization"}))
+			c.headers = append(c.headers, gen.Pick(r, []string{"Content-Type", "X-Token", "Authorization", "*", "x-lower"}))
 		}
 	}
 	if r.Chance(1, 3) {
 		for i := r.Intn(2) + 1; i > 0; i-- {
-			c.expose = append(c.expose, gen.Pick(r, []string{"X-A", "X-B"}))
+			c.expose = append(c.expose, gen.Pick(r, []string{"X-A", "X-B", "*"}))
 		}
 	}
 	c.creds = r.Chance(1, 3)
 	c.pn = r.Chance(1, 3)
-	c.maxAge = gen.Pick(r, []int{0, 0, -1, 1, 3600})
+	c.maxAge = gen.Pick(r, []int{0, 0, 0, -1, -3600, 1, 5, 3600, 86400, 2147483647})
 	return c
 }
 
-func genReq(r *gen.Rand, c cfgIn) reqIn {
+var priorVaries = []string{"Accept-Encoding", "Origin", "origin", "Accept-Encoding, Origin", "Origin, Accept-Encoding",
+	"Accept-Encoding,Origin", "X-Origin", "Origin-Agent-Cluster", "*", "Accept-Encoding, Access-Control-Request-Method",
+	"Access-Control-Request-Headers", "A, Origin, B", "OriginX", "Accept ,Origin", "A,\tOrigin", "Origin ", " Origin",
+	"Access-Control-Request-Private-Network, X", "A, ORIGIN"}
+
+// members with a blank inside: no list of field names (the spec is silent on Vary there, the model is not)
+var priorVariesMalformed = []string{"Foo Origin", "A, Foo Origin, B", "X Access-Control-Request-Method", "Foo Origin,"}
+
+func genReq(r *gen.Rand, w *gen.Writer, c cfgIn) reqIn {
 	var q reqIn
-	q.method = gen.Pick(r, []string{"GET", "POST", "OPTIONS", "OPTIONS", "DELETE"})
-	switch r.Intn(10) {
+	q.method = gen.Pick(r, []string{"GET", "POST", "OPTIONS", "OPTIONS", "DELETE", "HEAD", "PUT", "PATCH", "OPTIONS"})
+	kind := "random"
+	switch r.Intn(12) {
 	case 0:
 		q.origin = ""
+		kind = "none"
 	case 1:
-		q.origin = gen.Pick(r, []string{"null", "*", "https://", "example.com", "https://a.example.com/x"})
-	case 2, 3, 4:
-		// derive from a configured origin: same, subdomain instance, look-alike
+		q.origin = gen.Pick(r, []string{"null", "NULL", "*", "https://", "example.com", "https://a.example.com/x", "://example.com",
+			"file://", "https://example.com?", "https://example.com#", "https://example.com/", "https://evil.com/.example.com",
+			"https://evil.com#.example.com", "https://evil.com?.example.com", "https://x@a.example.com", "https:// a.example.com"})
+		kind = "special"
+	case 2, 3, 4, 5, 6, 7:
+		// derive from a configured origin: same, subdomain instance, look-alike, then a textual variant
 		if len(c.origins) > 0 {
-			o := strings.TrimSpace(gen.Pick(r, c.origins))
-			o = strings.TrimSuffix(o, "/")
+			e := gen.Pick(r, c.origins)
+			o := stripEntry(r, e)
 			if i := strings.Index(o, "://*."); i >= 0 {
-				sub := gen.Pick(r, []string{"x.", "x.y.", "", "X."})
-				if r.Chance(1, 4) {
+				sub := gen.Pick(r, []string{"x.", "x.y.", "", "X.", "a-b.", "x@", "evil.com/", "."})
+				switch {
+				case r.Chance(1, 4):
 					o = o[:i+3] + "x" + o[i+5:] // drop the dot: look-alike host
-				} else {
+					kind = "lookalike"
+				case r.Chance(1, 8):
+					o = o[:i+3] + o[i+5:] // the bare domain
+					kind = "bare-domain"
+				default:
 					o = o[:i+3] + sub + o[i+5:]
+					kind = "sub-instance"
 				}
+			} else {
+				kind = "same"
+			}
+			switch r.Intn(12) {
+			case 0:
+				o += "/"
+				kind += "+slash"
+			case 1:
+				o += "."
+				kind += "+dot"
+			case 2:
+				if i := strings.Index(o, "://"); i >= 0 {
+					o = o[:i+3] + gen.Pick(r, []string{"user@", "u:p@"}) + o[i+3:]
+					kind += "+userinfo"
+				}
+			case 3:
+				// default port added / any port removed
+				if j := strings.LastIndex(o, ":"); j > 6 && !strings.HasSuffix(o, "]") {
+					o = o[:j]
+					kind += "-port"
+				} else if strings.HasPrefix(strings.ToLower(o), "https://") {
+					o += ":443"
+					kind += "+port"
+				} else {
+					o += ":80"
+					kind += "+port"
+				}
+			case 4:
+				o = strings.ToUpper(o)
+				kind += "+upper"
+			case 5:
+				o = strings.ToLower(o)
+				kind += "+lower"
 			}
 			q.origin = mixCase(r, o)
 		} else {
 			q.origin = genOrigin(r)
 		}
+	case 8:
+		// what the allow function knows
+		pool := append(append([]string{}, c.funcAllows...), c.funcPanics...)
+		if len(pool) > 0 {
+			q.origin = mixCase(r, gen.Pick(r, pool))
+			kind = "func-known"
+		} else {
+			q.origin = mixCase(r, genOrigin(r))
+		}
 	default:
 		q.origin = mixCase(r, genOrigin(r))
 	}
+	for i := 0; i < len(q.origin); i++ {
+		if q.origin[i] >= 0x80 {
+			// strings.ToLower on non-ASCII text is outside the model (Unicode tables)
+			q.origin, kind = genOrigin(r), "random"
+			break
+		}
+	}
+	w.Count("origin-" + kind)
 	if q.method == "OPTIONS" && r.Chance(4, 5) {
-		q.acrm = gen.Pick(r, []string{"GET", "POST", "PUT"})
+		q.acrm = gen.Pick(r, []string{"GET", "POST", "PUT", "get", "X"})
+	} else if r.Chance(1, 10) {
+		q.acrm = "GET" // Access-Control-Request-Method on a non-OPTIONS request: no preflight
 	}
 	if r.Chance(1, 2) {
-		q.acrh = gen.Pick(r, []string{"X-Token", "Content-Type, X-Token"})
+		q.acrh = gen.Pick(r, []string{"X-Token", "Content-Type, X-Token", "x-token,content-type", "*", " "})
 	}
 	if r.Chance(1, 3) {
-		q.acrpn = gen.Pick(r, []string{"true", "false", "TRUE"})
+		q.acrpn = gen.Pick(r, []string{"true", "false", "TRUE", "true ", "1"})
 	}
-	q.skip = r.Chance(1, 10)
+	q.skip = r.Chance(1, 8)
+	if r.Chance(3, 10) {
+		if r.Chance(1, 12) {
+			q.priorVary = gen.Pick(r, priorVariesMalformed)
+			w.Count("vary-prior-malformed")
+		} else {
+			q.priorVary = gen.Pick(r, priorVaries)
+			w.Count("vary-prior")
+		}
+	}
+	if r.Chance(3, 10) {
+		for i := 1 + r.Intn(2); i > 0; i-- {
+			q.afterVary = append(q.afterVary, gen.Pick(r, []string{"Accept-Encoding", "Origin", "Accept", "origin", "X-Origin", "Access-Control-Request-Method"}))
+		}
+		w.Count("vary-after")
+	}
 	return q
 }
+
+// ---- the real code ----------------------------------------------------------------------------
 
 func opt(h *fasthttp.ResponseHeader, k string) string {
 	v := h.Peek(k)
@@ -153,28 +391,64 @@ func opt(h *fasthttp.ResponseHeader, k string) string {
 	return gen.Hex(string(v))
 }
 
-// observe runs the real middleware. The constructor's panic is part of the modelled behaviour.
-func observe(c cfgIn, q reqIn) (obs string) {
+// construct runs the real constructor; its panic is part of the modelled behaviour.
+func construct(c cfgIn) (h fiber.Handler, panicked bool) {
 	defer func() {
 		if r := recover(); r != nil {
-			obs = "panic"
+			h, panicked = nil, true
 		}
 	}()
 	conf := cors.Config{AllowOrigins: c.origins, AllowMethods: c.methods, AllowHeaders: c.headers,
 		ExposeHeaders: c.expose, MaxAge: c.maxAge, AllowCredentials: c.creds, AllowPrivateNetwork: c.pn}
 	if c.funcSet {
-		allowed := map[string]bool{}
+		allowed, boom := map[string]bool{}, map[string]bool{}
 		for _, a := range c.funcAllows {
 			allowed[a] = true
 		}
-		conf.AllowOriginsFunc = func(o string) bool { return allowed[o] }
+		for _, a := range c.funcPanics {
+			boom[a] = true
+		}
+		conf.AllowOriginsFunc = func(o string) bool {
+			if boom[o] {
+				panic("AllowOriginsFunc: boom")
+			}
+			return allowed[o]
+		}
 	}
-	// Next is always configured; it steps aside exactly for requests marked X-Skip: 1
-	conf.Next = func(c fiber.Ctx) bool { return c.Get("X-Skip") == "1" }
+	if c.nextSet {
+		// Next steps aside exactly for requests marked X-Skip: 1
+		conf.Next = func(c fiber.Ctx) bool { return c.Get("X-Skip") == "1" }
+	}
+	return cors.New(conf), false
+}
+
+func observe(c cfgIn, q reqIn) (obs string) {
+	mw, bad := construct(c)
+	if bad {
+		return "panic"
+	}
+	defer func() {
+		if r := recover(); r != nil {
+			obs = "reqpanic"
+		}
+	}()
 	app := fiber.New()
 	ran := false
-	app.Use(cors.New(conf))
-	app.Use(func(c fiber.Ctx) error { ran = true; return c.SendStatus(200) })
+	// an earlier middleware that already made the response vary
+	app.Use(func(c fiber.Ctx) error {
+		if q.priorVary != "" {
+			c.Set("Vary", q.priorVary)
+		}
+		return c.Next()
+	})
+	app.Use(mw)
+	app.Use(func(c fiber.Ctx) error {
+		ran = true
+		if len(q.afterVary) > 0 {
+			c.Vary(q.afterVary...)
+		}
+		return c.SendStatus(200)
+	})
 	h := app.Handler()
 	var fctx fasthttp.RequestCtx
 	var req fasthttp.Request
@@ -198,35 +472,57 @@ func observe(c cfgIn, q reqIn) (obs string) {
 	fctx.Init(&req, nil, nil)
 	h(&fctx)
 	rh := &fctx.Response.Header
-	var vary []string
-	if v := string(rh.Peek("Vary")); v != "" {
-		// canonical: sorted set (the property only speaks about membership)
-		seen := map[string]bool{}
-		for _, x := range strings.Split(v, ",") {
-			x = strings.TrimSpace(x)
-			if x != "" && !seen[x] {
-				seen[x] = true
-				vary = append(vary, x)
-			}
-		}
-		sort.Strings(vary)
-	}
 	return fmt.Sprintf("next=%s;s204=%s;acao=%s;acac=%s;vary=%s;am=%s;ah=%s;ma=%s;ex=%s;pn=%s",
 		gen.B(ran), gen.B(fctx.Response.StatusCode() == 204), opt(rh, "Access-Control-Allow-Origin"),
-		gen.B(string(rh.Peek("Access-Control-Allow-Credentials")) == "true"), gen.HexList(vary),
+		gen.B(string(rh.Peek("Access-Control-Allow-Credentials")) == "true"), gen.Hex(string(rh.Peek("Vary"))),
 		opt(rh, "Access-Control-Allow-Methods"), opt(rh, "Access-Control-Allow-Headers"),
 		opt(rh, "Access-Control-Max-Age"), opt(rh, "Access-Control-Expose-Headers"),
 		gen.B(string(rh.Peek("Access-Control-Allow-Private-Network")) == "true"))
 }
 
-func emit(w *gen.Writer, id string, c cfgIn, q reqIn) {
-	obs := observe(c, q)
-	if obs == "panic" {
-		w.Count("ctor-panic")
+// urlFacts: the real net/url.Parse on every string the constructor can pass to it (each entry
+// trimmed; a "://*." entry also with the star cut out) and on the request's Origin.
+func urlFacts(c cfgIn, q reqIn) string {
+	var probes []string
+	seen := map[string]bool{}
+	add := func(s string) {
+		if !seen[s] {
+			seen[s] = true
+			probes = append(probes, s)
+		}
 	}
-	w.Case(id, gen.HexList(c.origins), gen.B(c.funcSet), gen.HexList(c.funcAllows), gen.HexList(c.methods),
-		gen.HexList(c.headers), gen.HexList(c.expose), gen.I(c.maxAge), gen.B(c.creds), gen.B(c.pn),
-		gen.Hex(q.method), gen.Hex(q.origin), gen.Hex(q.acrm), gen.Hex(q.acrh), gen.Hex(q.acrpn), gen.B(q.skip), obs)
+	for _, e := range c.origins {
+		add(strings.Trim(e, " "))
+		if i := strings.Index(e, "://*."); i != -1 {
+			add(strings.Trim(e[:i+3]+e[i+4:], " "))
+		}
+	}
+	add(q.origin)
+	out := make([]string, 0, len(probes))
+	for _, p := range probes {
+		u, err := url.Parse(p)
+		res := "err"
+		if err == nil {
+			res = fmt.Sprintf("%x|%x|%x|%x|%x", u.Scheme, u.Host, u.Path, u.RawQuery, u.Fragment)
+		}
+		out = append(out, hex.EncodeToString([]byte(p))+"="+res)
+	}
+	return strings.Join(out, ";")
+}
+
+func emit(w *gen.Writer, id string, c cfgIn, q reqIn) string {
+	obs := observe(c, q)
+	switch obs {
+	case "panic":
+		w.Count("ctor-panic")
+	case "reqpanic":
+		w.Count("func-panic")
+	}
+	w.Case(id, gen.HexList(c.origins), gen.B(c.nextSet), gen.B(c.funcSet), gen.HexList(c.funcAllows), gen.HexList(c.funcPanics),
+		gen.HexList(c.methods), gen.HexList(c.headers), gen.HexList(c.expose), gen.I(c.maxAge), gen.B(c.creds), gen.B(c.pn),
+		gen.Hex(q.method), gen.Hex(q.origin), gen.Hex(q.acrm), gen.Hex(q.acrh), gen.Hex(q.acrpn), gen.B(q.skip),
+		gen.Hex(q.priorVary), gen.HexList(q.afterVary), urlFacts(c, q), obs)
+	return obs
 }
 
 func main() {
@@ -236,26 +532,32 @@ func main() {
 	defer w.Close()
 	if o.Replay != "" {
 		for _, f := range gen.ReplayInputs(o.Replay) {
-			if len(f) < 16 {
+			if len(f) < 20 {
 				continue
 			}
 			var mi int
-			fmt.Sscan(f[7], &mi)
-			c := cfgIn{origins: gen.UnHexList(f[1]), funcSet: f[2] == "1", funcAllows: gen.UnHexList(f[3]),
-				methods: gen.UnHexList(f[4]), headers: gen.UnHexList(f[5]), expose: gen.UnHexList(f[6]),
-				maxAge: mi, creds: f[8] == "1", pn: f[9] == "1"}
-			q := reqIn{gen.UnHex(f[10]), gen.UnHex(f[11]), gen.UnHex(f[12]), gen.UnHex(f[13]), gen.UnHex(f[14]), f[15] == "1"}
+			fmt.Sscan(f[9], &mi)
+			c := cfgIn{origins: gen.UnHexList(f[1]), nextSet: f[2] == "1", funcSet: f[3] == "1", funcAllows: gen.UnHexList(f[4]),
+				funcPanics: gen.UnHexList(f[5]), methods: gen.UnHexList(f[6]), headers: gen.UnHexList(f[7]), expose: gen.UnHexList(f[8]),
+				maxAge: mi, creds: f[10] == "1", pn: f[11] == "1"}
+			q := reqIn{method: gen.UnHex(f[12]), origin: gen.UnHex(f[13]), acrm: gen.UnHex(f[14]), acrh: gen.UnHex(f[15]),
+				acrpn: gen.UnHex(f[16]), skip: f[17] == "1", priorVary: gen.UnHex(f[18]), afterVary: gen.UnHexList(f[19])}
 			emit(w, f[0], c, q)
 		}
 		return
 	}
 	root := gen.New(o.Seed)
 	perCfg := 8
-	for i := 0; i*perCfg < o.N; i++ {
+	n := 0
+	for i := 0; n < o.N; i++ {
 		r := root.Fork(uint64(i))
-		c := genCfg(r)
-		for j := 0; j < perCfg && i*perCfg+j < o.N; j++ {
-			emit(w, fmt.Sprintf("s%d.%d.%d", o.Seed, i, j), c, genReq(r, c))
+		c := genCfg(r, w)
+		for j := 0; j < perCfg && n < o.N; j++ {
+			obs := emit(w, fmt.Sprintf("s%d.%d.%d", o.Seed, i, j), c, genReq(r, w, c))
+			n++
+			if obs == "panic" && j >= 1 {
+				break // a refused configuration serves nothing: two requests are enough
+			}
 		}
 	}
 }
